@@ -48,6 +48,10 @@ def run(ctx):
     before, nv = len(ctx.instances), len(ctx.violations)
     p12.u2(ctx, F, _dm(F))
     p17.relabel(ctx, before, nv, "C02.R10")
+    # R11 = C03.M: the rights and the en-passant file push starts from (`self.state()`) are those of the entry stacked last
+    before, nv = len(ctx.instances), len(ctx.violations)
+    p03.current_state_is_top(ctx, F)
+    p17.relabel(ctx, before, nv, "C02.R11")
     # R8 = the writer half of C11: the property is observed through Game::fen() (fields 1-4), which must render the state push left
     before, nv = len(ctx.instances), len(ctx.violations)
     p11._FACTS[0] = F
